@@ -42,7 +42,9 @@ TRUSTED = ['np.fft.fft2(norm="ortho") = unitary DFT with origin at index 0; np.f
            'np.round = round-half-even; lentil.field.insert as modelled by insertArr (C06)']
 UNPROVEN = ['float (non-integer) oversample: outside the model; explicit shapes then end in TypeError (known finding)',
             'anisotropic dx*du with different per-axis wavelengths (known finding): a single reported wavelength cannot describe both grids']
-ASSUMPTIONS = ['pupil (wavefront.shape) no larger than the FFT grid; isotropic dx*du for the FFT = DFT clause; integer oversample >= 1 in model and '
+ASSUMPTIONS = ['scratch buffers are complex128 arrays (contiguous or strided views): a complex64 / real buffer would store the padded field at lower precision or drop its '
+               'imaginary part, so "scratch transparent" is only claimed for buffers of the working dtype; such buffers are not generated',
+               'pupil (wavefront.shape) no larger than the FFT grid; isotropic dx*du for the FFT = DFT clause; integer oversample >= 1 in model and '
                'theorems (float oversample: oracle only, shape=None works, explicit shapes are an open known finding)']
 
 WL, Z = P.WL, P.Z
